@@ -13,6 +13,7 @@ from harness.common import Case, f, inject
 from symx.core import Sym, lift
 from symx.npx import patched
 from symx.stubs import ScriptedGenerator, SymGenerator, script_from, sym_default_rng
+from symx.core import reraise_if_harness  # noqa: E402
 
 LEVEL = "other"
 FUNCTIONS = [
@@ -131,6 +132,7 @@ def case_learn(n, a, steps=1):
                 step = Fraction(1, cnt) if alpha == -1 else Fraction(alpha)
                 exp = exp + step * (Fraction(r) - exp)
         except Exception as e:  # noqa: BLE001
+            reraise_if_harness(e)
             return True, f"learn raised {type(e).__name__}: {e}"
         tol = Fraction(1, 10**9) * (1 + abs(exp))
         bad = abs(Fraction(float(agent.Q[a])) - exp) > tol or agent.actions_count[a] != C[a] + steps
@@ -171,6 +173,7 @@ def case_policy(n):
             try:
                 outs.append(ag.policy(0))
             except Exception as e:  # noqa: BLE001
+                reraise_if_harness(e)
                 return True, f"policy raised {type(e).__name__}: {e}"
         a = outs[0]
         bad = not (isinstance(a, int) and 0 <= a < n) or outs[0] != outs[1] or (eps == 0 and Q[a] < max(Q))
@@ -217,6 +220,7 @@ def case_policy_history(n, k, iv):
                 act = ag.policy(0)
                 q = [float(x) for x in ag.Q]
             except Exception as e:  # noqa: BLE001
+                reraise_if_harness(e)
                 return True, f"raised {type(e).__name__}: {e}"
             if not (isinstance(act, int) and 0 <= act < n) or q[act] < max(q):
                 return True, f"initial_values={iv} alpha={al} eps=0 after learn{list(zip(acts, rs))}: policy chose action {act} with estimate {q[act] if 0 <= act < n else None}, estimates {q}"
@@ -294,6 +298,7 @@ def replay_ctor_learn(n, a, iv, steps, after_reset, alpha, rs):
             exp = exp + step * (Fraction(r) - exp)
         got = [float(x) for x in ag.Q]
     except Exception as e:  # noqa: BLE001
+        reraise_if_harness(e)
         return True, f"raised {type(e).__name__}: {e}"
     tol = Fraction(1, 10**6) * (1 + abs(exp))  # float32 initial values keep their own precision
     bad = abs(Fraction(got[a]) - exp) > tol or any(abs(Fraction(got[i]) - q0) > tol for i in range(n) if i != a)
